@@ -90,6 +90,9 @@ def run(ctx, V):
 
     rng = common.rng_for(ctx["seed"], "C05")
     quick = ctx["tier"] == "quick"
+    # bin/check installs the transpiled (pure Python, slow) .pyx functions when the compiled .so no longer
+    # agrees with the source (harness/pyx2py.py); the predicates then run on the source semantics, on fewer tiles
+    slow = getattr(T.subsample, "__module__", "") == "_libtoasty_transpiled"
     systems = TT.coordsystems()
     fails = []            # property predicate failures (strings), with a replayable case each
     numeric = {}
@@ -142,7 +145,7 @@ def run(ctx, V):
                     V.disagreement("compiled _libtoasty.mid != _mid source semantics (the .so is stale or the .pyx was edited)",
                                    dict(route="mid-source-vs-so", a=a, b=b), list(pm.mid(a, b)), list(so_mid(a, b)), None)
         for idx, (planet, p, row, fl, inc) in enumerate(real_tiles):
-            for npix in ((1, 2, 8, 32) if quick else (1, 2, 4, 16, 64)) + ((256,) if idx < (1 if quick else 5) else ()):
+            for npix in ((1, 2, 8, 32) if quick else (1, 2, 4, 16, 64)) + ((256,) if idx < (1 if quick else 5) and not slow else ()):
                 for incv in (inc, not inc) if npix <= 8 else (inc,):
                     xs, ys = pm.subsample(fl[0], fl[1], fl[2], fl[3], npix, incv)
                     xo, yo = so_subsample(fl[0], fl[1], fl[2], fl[3], npix, incv)
@@ -188,7 +191,7 @@ def run(ctx, V):
     worst = 0.0
     n_px = 0
     special = [(0, 0), (0, 255), (255, 0), (255, 255), (127, 127), (127, 128), (128, 127), (128, 128), (0, 128), (64, 191)]
-    for planet, p, row, fl, inc in real_tiles:
+    for planet, p, row, fl, inc in (real_tiles[:4] if slow else real_tiles):
         tile = T.create_single_tile(Pos(*p), systems[planet])
         lon, lat = T.toast_tile_get_coords(tile)
         px = special + [(rng.randrange(256), rng.randrange(256)) for _ in range(12 if quick else 60)]
@@ -201,7 +204,7 @@ def run(ctx, V):
     numeric["pixel_vs_centre"] = dict(pixels=n_px, worst_chord=worst, tolerance=1e-12)
 
     # ---- E2. every pixel centre inside its tile and inside the corners' latitude range: exhaustive to depth DL
-    DL = 3 if quick else 5
+    DL = 1 if slow else (3 if quick else 5)
     n_tiles = 0
     min_margin, max_exc = np.inf, -np.inf
     for planet, cs in enumerate(systems):
@@ -219,7 +222,7 @@ def run(ctx, V):
     numeric["inside_and_latitude_range"] = dict(tiles=n_tiles, pixels=n_tiles * 65536, depth=DL, min_margin=min_margin,
                                                 max_latitude_excess=max_exc, exhaustive_to_depth=DL)
     if not quick:   # sampled deeper
-        for _ in range(300):
+        for _ in range(10 if slow else 300):
             n = rng.randint(6, 12)
             planet = rng.random() < 0.5
             tile = T.create_single_tile(Pos(n, rng.randrange(2 ** n), rng.randrange(2 ** n)), systems[planet])
@@ -242,6 +245,6 @@ def run(ctx, V):
                 rule="tiles at random positions depth 1-14, both systems; model vs .pyx source semantics on the hash image for "
                      "npix 1..64 (all pixels) and 256; source semantics vs compiled .so bit-identical (all pixels); "
                      "toast_tile_get_coords argument wiring; non-trivial = distinct (route, k >= 1, system, position, orientation)",
-                numeric_validation_tests=numeric, input_histogram=hist,
+                numeric_validation_tests=numeric, input_histogram=hist, transpiled_source_installed=slow,
                 property_predicate_failures=[w for w, _c in fails[:5]],
                 samples=meta[:2] + meta[-2:])
